@@ -18,7 +18,7 @@ var decodeAllTypes = []string{"Int", "Int8", "Int16", "Int32", "Int64", "Uint", 
 	"Iface", "SliceInt", "SliceString", "SliceIface", "SliceBool", "SliceFloat", "SliceSmall", "SlicePtrSmall", "SliceSlice", "ArrInt3", "ArrStr2", "ArrU8", "ArrSmall2",
 	"MapStrInt", "MapStrIface", "MapStrString", "MapIntString", "MapStrSmall", "MapStrPtrSmall", "MapStrSlice", "MapStrMap", "PtrInt", "PtrPtrString", "PtrSmall", "Small",
 	"Tagged", "Big", "Nested", "Inner", "Leaf", "Embedded", "Recursive", "MutA", "WithIface", "WithBytes", "StrTag", "CaseColl", "Ptrs", "Wide", "Floats", "Ints", "IntKeys",
-	"MT", "UJ", "UT", "UJC", "WithUCB", "SliceUJ", "MapStrUJ", "MapMTInt", "MJ"}
+	"MT", "UJ", "UT", "UJC", "WithUCB", "SliceUJ", "MapStrUJ", "MapMTInt", "MJ", "WithNE"}
 
 var prefixes = []string{"", " ", "\t", ">>", "é"}
 var indents = []string{"", " ", "  ", "\t", "日"}
@@ -156,7 +156,7 @@ func randDecodeStep(r *plan.Rng, faulty bool) plan.Step {
 	if r.Chance(1, 6) {
 		st.Opts = append(st.Opts, "firstwin")
 	}
-	if r.Chance(1, 5) {
+	if r.Chance(1, 5) || st.T == "WithNE" {
 		st.Opts = append(st.Opts, "prefill")
 		st.V = valueSeed(r, 0, 1)
 	}
@@ -334,6 +334,12 @@ func pathStep(r *plan.Rng, h string, shared bool, bad bool) plan.Step {
 	case 2:
 		st.Op = "path_get"
 		st.S2 = []string{"Iface", "Int", "String", "SliceIface"}[r.Intn(4)]
+		if r.Chance(1, 2) {
+			// a Go value (struct, pointer, slice of structs) as the source
+			st.Doc = nil
+			st.T = []string{"Nested", "Small", "Tagged", "WithIface", "PtrSmall", "SliceSmall", "MapStrSmall", "Recursive", "Embedded", "Big"}[r.Intn(10)]
+			st.V = valueSeed(r, 0, 1)
+		}
 	case 3:
 		st.Op = "path_string"
 		st.Doc = nil
